@@ -443,6 +443,7 @@ func (u *Unit) load(st *State, addr Val, elem types.Type, pos token.Pos) Val {
 		}
 		return sv.Fields[a.Field]
 	case *AddrVal:
+		u.checkLockHeld(st, a, pos, "read")
 		if fv, ok := u.loadLocVal(st, a.Map, a.Elem, a.Ptr); ok {
 			return fv
 		}
@@ -502,6 +503,7 @@ func (u *Unit) storeTo(st *State, addr Val, elem types.Type, v Val, pos token.Po
 				unsupp("store of %T into field", v)
 			}
 		}
+		u.checkLockHeld(st, a, pos, "write")
 		u.checkWrite(st, a.Map, a.Ptr, pos, "field store")
 		u.storeLoc(st, a.Map, a.Elem, a.Ptr, tv)
 		if fwdVal != nil {
